@@ -816,6 +816,15 @@ func (x *Exec) applyInvoke(st, pre *State, in ssa.Instruction, tgt *target, ic *
 		fn = a.Fn.(*ssa.Function)
 	case *ssa.Function:
 		fn = a
+		// a method expression (T.m / (*T).m) is lowered to a synthetic thunk with the receiver as first parameter:
+		// the callback is the declared method
+		if fn.Pkg == nil && strings.HasSuffix(fn.Name(), "$thunk") {
+			if obj, ok := fn.Object().(*types.Func); ok {
+				if real := x.g.prog.FuncValue(obj); real != nil && real.Pkg != nil {
+					fn = real
+				}
+			}
+		}
 	}
 	var ccon *Contract
 	if fn != nil && fn.Pkg != nil {
@@ -942,9 +951,98 @@ func (x *Exec) applyInvoke(st, pre *State, in ssa.Instruction, tgt *target, ic *
 		before = append(before, mkEnv(pre, pre).eval(cl.Expr))
 	}
 	envPre := mkEnv(pre, pre)
-	for _, m := range ccon.Mods {
-		x.applyMod(st, envPre, m)
+	// the callback's own parameters stand for arbitrary arguments: an object-specific frame item (t.f with t a
+	// parameter of the callback) is widened to the whole field heap
+	for _, p := range cbParams {
+		if _, dup := envPre.names[p.name]; !dup {
+			envPre.names[p.name] = val{vc.fresh("cbarg", vc.sortOf(p.typ)), p.typ, vc.sortOf(p.typ)}
+		}
 	}
+	mentionsParam := func(c *CExpr) bool {
+		found := false
+		var walk func(c *CExpr)
+		walk = func(c *CExpr) {
+			if c == nil || found {
+				return
+			}
+			if c.Op == "ident" {
+				for _, p := range cbParams {
+					if p.name == c.Name {
+						if _, captured := envPre.lazy[c.Name]; !captured {
+							found = true
+						}
+					}
+				}
+			}
+			for _, a := range c.Args {
+				walk(a)
+			}
+		}
+		walk(c)
+		return found
+	}
+	applyCbMods := func(s *State, e *Env) {
+		for _, m := range ccon.Mods {
+			if !m.All && m.Heap == "" && m.Captured == "" && m.Expr != nil && mentionsParam(m.Expr) {
+				if m.MapHeap {
+					x.applyMod(s, e, m)
+					continue
+				}
+				for _, cr := range e.modTargets(m) {
+					s.comp[cr.comp] = vc.fresh(strings.Trim(cr.comp, "|")+"_h", vc.reg().sorts[cr.comp])
+				}
+				continue
+			}
+			x.applyMod(s, e, m)
+		}
+	}
+	// 2c (checked on a state of its own: the caller's pre-state after any number of earlier invocations - the callback's
+	// frame arbitrary, what it maintains / preserves kept; the callee's own effects are not part of it): the callback's
+	// preconditions must hold again
+	{
+		again := pre.clone()
+		envA := mkEnv(pre, pre)
+		for _, p := range cbParams {
+			if _, dup := envA.names[p.name]; !dup {
+				envA.names[p.name] = val{vc.fresh("cbarg", vc.sortOf(p.typ)), p.typ, vc.sortOf(p.typ)}
+			}
+		}
+		applyCbMods(again, envA)
+		var hyps []string
+		for i, cl := range ccon.Preserves {
+			hyps = append(hyps, eq(mkEnv(again, pre).eval(cl.Expr).t, before[i].t))
+		}
+		for _, cl := range ccon.Maintains {
+			hyps = append(hyps, mkEnv(again, pre).evalBool(cl.Expr))
+		}
+		for _, cl := range ccon.Req {
+			env := mkEnv(again, pre)
+			for k, v := range bound {
+				env.names[k] = v
+			}
+			whereNow := "true"
+			if ic.Where != nil {
+				wenv := x.newEnvFor(again, pre, tgt.pkg)
+				for _, bv := range ic.With {
+					t, srt := wenv.resolveSpecType(bv.Type)
+					wenv.names[bv.Name] = val{quote("q$w$" + bv.Name), t, srt}
+				}
+				wenv.bindCallArgs(tgt, recv, args)
+				wenv.callee = tgt
+				for k, v := range bound {
+					wenv.names[k] = v
+				}
+				whereNow = wenv.evalBool(ic.Where)
+			}
+			t := env.evalBool(cl.Expr)
+			o := &Obl{Name: x.prefix + "/pre/" + site + "/callback " + ic.Param + "/again/" + clauseLabel(cl), Kind: "pre", Props: x.props, Reach: pre.reach, Goal: implies(and(hyps...), quant(implies(whereNow, t))), Src: "callback " + cbName + " requires " + cl.Text + " also after earlier invocations by " + tgt.display}
+			if in != nil && in.Pos().IsValid() {
+				o.Pos = x.g.fset.Position(in.Pos())
+			}
+			vc.oblige(o)
+		}
+	}
+	applyCbMods(st, envPre)
 	vc.regComp("Calls", "(Array Int Int)")
 	oldCalls := vc.get(st, "Calls")
 	nc := vc.fresh("ncalls", sInt)
